@@ -139,8 +139,8 @@ def run(ctx):
     off = ctx.seed
     L = ("LawsHoldOnSpec",)
     if ctx.quick:
-        plan = [("<=4 revisions, ghost", hc.gen_cfg(1, 4, 2, 1, 3, off), L, True, True),
-                ("5 revisions", hc.gen_cfg(5, 5, 2, 0, 30, off), L, True, False)]
+        plan = [("<=4 revisions, ghost", hc.gen_cfg(1, 4, 2, 1, 4, off), L, True, True),
+                ("5 revisions", hc.gen_cfg(5, 5, 2, 0, 40, off), L, True, False)]
         remote_every, pack_every, nfiles = 30, 8, 3
     else:
         plan = [("<=4 revisions, ghost", hc.gen_cfg(1, 4, 2, 1), L, True, True),
